@@ -60,7 +60,7 @@ func (r StateT[S, A]) RecoverWithStateT(f func(s S, err error) Try[A]) StateT[S,
 	return func(s S) (Try[A], S) {
 		at, ns := r.Run(s)
 		if at.IsFailure() {
-			rt := f(s, at.Failed().Get())
+			rt := f(ns, at.Failed().Get())
 			return rt, ns
 		}
 		return at, ns
